@@ -14,8 +14,18 @@ that differ between the two runs. For the model the same statement is `probeAfte
 -/
 namespace C05
 
+/-- The response side. fasthttp hands every request a response object it has reset itself (status, headers,
+    content type, cookies, body buffer); fiber's response helpers (`Status`, `Type`, `Append`, `Vary`, `Links`,
+    `Format`, `Cookie`, `SendStream`…) keep nothing on the pooled context, they write into that object. The
+    model takes "the response starts empty" as a hypothesis (`Live.start`: `resp := {}`); this clause checks it
+    on every case: the raw reply (status line, all headers but `Date` in wire order, body) of the probe after
+    the history must be byte-identical to its raw reply on a fresh app. -/
+def rawReplyEntry : String := "response"
+
 def specViolation (fresh hist : String) (fullDiff : List String) : Option String :=
   if hist != fresh then some "probe-observation-depends-on-history"
+  else if fullDiff.contains rawReplyEntry then
+    some s!"raw-reply-depends-on-history {",".intercalate fullDiff}"
   else if !fullDiff.isEmpty then some s!"full-vector-depends-on-history {",".intercalate fullDiff}"
   else none
 
